@@ -246,6 +246,52 @@ def _local_renames(fn: ast.AST) -> Dict[str, str]:
     return {x: f"{x}_rn" for x in names}
 
 
+def pass_between_statements(sources: Dict[str, str]) -> Dict[str, str]:
+    """Insert a `pass` between every two statements of every function body (and nested
+    blocks): nothing changes, but rules that rely on two statements being neighbours,
+    or on a statement being the first / last of a block, are exposed."""
+    out = {}
+
+    def pad(stmts, keep_first_doc=False):
+        res = []
+        for i, st in enumerate(stmts):
+            for fld in ("body", "orelse", "finalbody"):
+                sub = getattr(st, fld, None)
+                if isinstance(sub, list) and sub and isinstance(sub[0], ast.stmt) and not isinstance(st, (ast.ClassDef,)):
+                    setattr(st, fld, pad(sub, isinstance(st, (ast.FunctionDef, ast.AsyncFunctionDef))))
+            for h in getattr(st, "handlers", []) or []:
+                h.body = pad(h.body)
+            res.append(st)
+            is_doc = i == 0 and keep_first_doc and isinstance(st, ast.Expr) and isinstance(st.value, ast.Constant) and isinstance(st.value.value, str)
+            if i < len(stmts) - 1 and not is_doc:
+                res.append(ast.Pass())
+        return res
+
+    for p, s in sources.items():
+        tree = ast.parse(s)
+        for n in ast.walk(tree):
+            if isinstance(n, (ast.FunctionDef, ast.AsyncFunctionDef)):
+                n.body = pad(n.body, True)
+        ast.fix_missing_locations(tree)
+        out[p] = ast.unparse(tree)
+    return out
+
+
+def log_at_function_start(sources: Dict[str, str]) -> Dict[str, str]:
+    """Put a logging call at the top of every function (after the docstring)."""
+    out = {}
+    for p, s in sources.items():
+        tree = ast.parse(s)
+        for n in ast.walk(tree):
+            if isinstance(n, (ast.FunctionDef, ast.AsyncFunctionDef)) and not any(isinstance(d, ast.Name) and d.id in ("property", "cached_property") for d in n.decorator_list):
+                stmt = ast.parse("__import__('logging').getLogger(__name__).debug('enter')").body[0]
+                i = 1 if n.body and isinstance(n.body[0], ast.Expr) and isinstance(n.body[0].value, ast.Constant) and isinstance(n.body[0].value.value, str) else 0
+                n.body.insert(i, stmt)
+        ast.fix_missing_locations(tree)
+        out[p] = ast.unparse(tree)
+    return out
+
+
 def rename_all_locals(sources: Dict[str, str]) -> Dict[str, str]:
     out = {}
     for p, s in sources.items():
@@ -301,6 +347,10 @@ def _worker(args):
             overlay = reformat_all(sources)
         elif m.old == "<rename-all-locals>":
             overlay = rename_all_locals(sources)
+        elif m.old == "<pass-between-statements>":
+            overlay = pass_between_statements(sources)
+        elif m.old == "<log-at-function-start>":
+            overlay = log_at_function_start(sources)
         else:
             if m.file not in sources:
                 raise StaleMutant(f"file {m.file} not found")
@@ -331,6 +381,8 @@ def _worker(args):
 GENERIC = [
     M("reformat every module through ast.unparse", "", None, "<reformat-all>", "", kind="equiv"),
     M("rename every local variable in every function", "", None, "<rename-all-locals>", "", kind="equiv"),
+    M("insert a pass statement between every two statements of every function", "", None, "<pass-between-statements>", "", kind="equiv"),
+    M("put a logging call at the start of every function", "", None, "<log-at-function-start>", "", kind="equiv"),
 ]
 
 
